@@ -32,6 +32,10 @@ def hStep : Handler := fun op j =>
   | "check_balance" => do
       let rs ← getRxns j "rxns"
       pure (showBalance (← getBool j "throw") (checkBalance (← getSubs j "subs") rs (← getBool j "strict")))
+  | "construct" => do
+      -- constructor with default checks; `dup_ok` = outcome of check_duplicate and check_duplicate_names (not modelled)
+      let rs ← getRxns j "rxns"
+      pure (if constructorAccepts (← getSubs j "subs") rs (← getBool j "dup_ok") then "True" else "ValueError")
   | "balance_vectors" => do
       match compositionBalanceVectors (← getSubs j "subs") with
       | .error e => pure (showErr e)
